@@ -31,6 +31,9 @@
  *   att <varid|-1> <idx> <rc> <name> <type> <nelems> <rc_get> <data|skipped>
  *   var <id> <rc> <name> <type> <ndims> <dimid,dimid..|-> <natts> <rc_off> <begin>
  *   data <id> <rc> <nbytes> <hex | fnv:<hash> | skipped>
+ *   rec <id> <record> <rc> <hex>                  every record of a record variable read SEPARATELY with
+ *                                                 ncmpi_get_vara_all (start[0]=record, count[0]=1), when
+ *                                                 1 <= numrecs <= 64 and the whole variable was read
  *   idata <id> <rc> same|diff|skipped          (with -i)
  *   close <rc>
  *   ranks <n> agree <0|1>                       (all ranks produced the same dump)
@@ -244,7 +247,8 @@ static void run_case(const char *path, MPI_Info info, long long maxdata, int ind
     for (i = 0; i < nvars; i++) {
         nc_type t = 0;
         int nd = 0, esz, bad = 0, *dimids;
-        long long nel = 1;
+        long long nel = 1, nrecs = -1;
+        MPI_Offset st[64], ct[64];
         rc = ncmpi_inq_varndims(ncid, i, &nd);
         if (rc != NC_NOERR || nd < 0) { out("data %d %d 0 skipped\n", i, rc); continue; }
         dimids = (int *)malloc(sizeof(int) * (nd + 1));
@@ -254,6 +258,8 @@ static void run_case(const char *path, MPI_Info info, long long maxdata, int ind
         for (j = 0; j < nd && !bad; j++) {
             MPI_Offset len = -1;
             if (ncmpi_inq_dimlen(ncid, dimids[j], &len) != NC_NOERR || len < 0) { bad = 1; break; }
+            if (j == 0 && dimids[0] == unlim) nrecs = len;
+            if (j < 64) { st[j] = 0; ct[j] = len; }
             if (len != 0 && nel > (maxdata + 1) / len + 1) nel = maxdata + 1;
             else nel *= len;
             if (nel > maxdata + 1) nel = maxdata + 1;
@@ -279,6 +285,29 @@ static void run_case(const char *path, MPI_Info info, long long maxdata, int ind
                 to_be(c, (size_t)nel, esz);
                 out("idata %d %d %s\n", i, rc2, (rc2 == rc && (rc != NC_NOERR || memcmp(b, c, nb) == 0)) ? "same" : "diff");
                 free(c);
+            }
+            /* every record separately: start[0] = r, count[0] = 1 (uses ncp->recsize as the stride) */
+            if (nrecs >= 1 && nrecs <= 64 && nd <= 64) {
+                long long r, per = nel / nrecs;
+                MPI_Datatype bt = MPI_BYTE;
+                switch (t) {
+                    case NC_CHAR: bt = MPI_CHAR; break;            case NC_BYTE: bt = MPI_SIGNED_CHAR; break;
+                    case NC_UBYTE: bt = MPI_UNSIGNED_CHAR; break;  case NC_SHORT: bt = MPI_SHORT; break;
+                    case NC_USHORT: bt = MPI_UNSIGNED_SHORT; break; case NC_INT: bt = MPI_INT; break;
+                    case NC_UINT: bt = MPI_UNSIGNED; break;        case NC_FLOAT: bt = MPI_FLOAT; break;
+                    case NC_DOUBLE: bt = MPI_DOUBLE; break;        case NC_INT64: bt = MPI_LONG_LONG_INT; break;
+                    case NC_UINT64: bt = MPI_UNSIGNED_LONG_LONG; break; default: break;
+                }
+                for (r = 0; r < nrecs; r++) {
+                    int rc3;
+                    st[0] = r; ct[0] = 1;
+                    memset(b, 0xA5, (size_t)per * esz + 16);
+                    rc3 = ncmpi_get_vara_all(ncid, i, st, ct, b, per, bt);
+                    to_be(b, (size_t)per, esz);
+                    out("rec %d %lld %d ", i, r, rc3);
+                    if (rc3 == NC_NOERR) out_hex(b, (size_t)per * esz); else out("-");
+                    out("\n");
+                }
             }
             free(b);
         }
